@@ -1,4 +1,5 @@
-From Verif Require Import Lib.Base Roothash.Pool Roothash.PoolSpec Roothash.PoolProofs Roothash.PoolInv Roothash.Verify Roothash.VerifyProofs Roothash.App Roothash.AppProofs Roothash.EarlyDetect.
+From Coq Require Import Permutation.
+From Verif Require Import Lib.Base Roothash.Pool Roothash.PoolSpec Roothash.PoolProofs Roothash.PoolInv Roothash.Verify Roothash.VerifyProofs Roothash.App Roothash.AppProofs Roothash.EarlyDetect Roothash.Permute Roothash.Evidence Roothash.EvidenceProofs.
 
 Theorem finalize_only_if_rule :
   forall (c : committee) (p : pool) (strag : N) (timeout : bool) (p' : pool) (sc : sched_commitment),
@@ -258,3 +259,100 @@ Theorem early_detection_equals_final :
                   t = gather_all false votes ms tally0).
 Proof. exact early_detection_equals_final. Qed.
 Print Assumptions early_detection_equals_final.
+
+(* ---- member order, Go map order ---- *)
+
+Theorem process_member_order_irrelevant :
+  forall (c c' : committee) (p : pool) (strag : N) (timeout : bool),
+    Permutation c c' ->
+    fst (process c p strag timeout) = fst (process c' p strag timeout) /\
+    outcome_code (snd (process c p strag timeout)) = outcome_code (snd (process c' p strag timeout)) /\
+    chosen (snd (process c p strag timeout)) = chosen (snd (process c' p strag timeout)).
+Proof. exact process_member_order_irrelevant_full. Qed.
+Print Assumptions process_member_order_irrelevant.
+
+Theorem resolution_map_order_irrelevant :
+  forall (total commits : N) (timeout : bool) (sc : sched_commitment) (l l' : list (N * N)),
+    Permutation l l' -> NoDup (keys l) -> vpos l -> vsum l <= total ->
+    resolution_code total commits timeout sc l = resolution_code total commits timeout sc l'.
+Proof. exact resolution_map_order_irrelevant. Qed.
+Print Assumptions resolution_map_order_irrelevant.
+
+Theorem process_inner_is_resolution_code :
+  forall (c : committee) (p : pool) (strag : N) (timeout : bool) (sc : sched_commitment) (t : tally),
+    aget (hr p) (scs p) = Some sc -> disc p = true ->
+    gather true (hr p) strag timeout (sc_votes sc) c tally0 = Some t ->
+    outcome_code (process_inner c p strag timeout) = resolution_code (t_total t) (t_commits t) timeout sc (t_votes t)
+    /\ (forall sc', process_inner c p strag timeout = POk sc' -> sc' = sc).
+Proof. exact process_inner_resolution. Qed.
+Print Assumptions process_inner_is_resolution_code.
+
+(* ---- multi-commitment transactions ---- *)
+
+Theorem executor_commit_all_or_nothing :
+  forall (H : Z) (prm : rt_params) (st : rt_state) (vcs : list vcommit),
+    snd (fst (executor_commit H prm st vcs)) <> 0 ->
+    fst (fst (executor_commit H prm st vcs)) = st /\ snd (executor_commit H prm st vcs) = false.
+Proof. exact executor_commit_all_or_nothing. Qed.
+Print Assumptions executor_commit_all_or_nothing.
+
+Theorem commit_all_ok :
+  forall (round bh mm : N) (c : committee) (vcs : list vcommit) (p p1 : pool),
+    commit_all round bh mm c p vcs = (p1, 0) ->
+    Forall (fun vc => verify round bh mm vc = VOk) vcs /\
+    p1 = fold_left (fun q vc => fst (add c q (vc_ec vc))) vcs p.
+Proof. exact commit_all_ok. Qed.
+Print Assumptions commit_all_ok.
+
+(* ---- equivocation evidence ---- *)
+
+Theorem valid_evidence_means_double_vote :
+  forall (a b : ecommit),
+    exec_evidence_check a b = EvOk ->
+    vc_node (e_vc a) = vc_node (e_vc b) /\ vc_sched (e_vc a) = vc_sched (e_vc b) /\
+    vc_round (e_vc a) = vc_round (e_vc b) /\
+    vc_sig_ok (e_vc a) = true /\ vc_sig_ok (e_vc b) = true /\
+    validate_basic (e_vc a) = true /\ validate_basic (e_vc b) = true /\
+    (vc_fcode (e_vc a) <> vc_fcode (e_vc b) \/ vc_vote (e_vc a) <> vc_vote (e_vc b)) /\
+    ((vc_fcode (e_vc a) = 0 /\ vc_fcode (e_vc b) = 0 /\
+      (vc_prev (e_vc a) <> vc_prev (e_vc b) \/ e_io a <> e_io b \/ e_state a <> e_state b \/ e_mh a <> e_mh b))
+     \/ vc_fcode (e_vc a) <> vc_fcode (e_vc b)).
+Proof. exact valid_evidence_means_double_vote. Qed.
+Print Assumptions valid_evidence_means_double_vote.
+
+Theorem honest_node_never_accused :
+  forall (n : N) (signed : vcommit -> Prop),
+    (forall vc, vc_node vc = n -> vc_sig_ok vc = true -> signed vc) ->
+    (forall x y, signed x -> signed y -> vc_round x = vc_round y -> vc_sched x = vc_sched y ->
+                 vc_fcode x = vc_fcode y /\ vc_vote x = vc_vote y) ->
+    forall (a b : ecommit), vc_node (e_vc a) = n -> exec_evidence_check a b <> EvOk.
+Proof. exact honest_node_never_accused. Qed.
+Print Assumptions honest_node_never_accused.
+
+Theorem valid_proposal_evidence_means_double_proposal :
+  forall (a b : proposal),
+    prop_evidence_check a b = PvOk ->
+    pr_node a = pr_node b /\ pr_round a = pr_round b /\
+    pr_sig_ok a = true /\ pr_sig_ok b = true /\
+    (pr_prev a <> pr_prev b \/ pr_batch_hash a <> pr_batch_hash b).
+Proof. exact valid_proposal_evidence_means_double_proposal. Qed.
+Print Assumptions valid_proposal_evidence_means_double_proposal.
+
+Theorem honest_proposer_never_accused :
+  forall (n : N) (proposed : proposal -> Prop),
+    (forall p, pr_node p = n -> pr_sig_ok p = true -> proposed p) ->
+    (forall x y, proposed x -> proposed y -> pr_round x = pr_round y ->
+                 pr_prev x = pr_prev y /\ pr_batch_hash x = pr_batch_hash y) ->
+    forall (a b : proposal), pr_node a = n -> prop_evidence_check a b <> PvOk.
+Proof. exact honest_proposer_never_accused. Qed.
+Print Assumptions honest_proposer_never_accused.
+
+Theorem submit_evidence_spec :
+  forall (st : rt_state) (store : list N) (slashes : bool) (max_age : N) (e : evidence) (id : N) (registered : bool),
+    let r := submit_evidence st store slashes max_age e id registered in
+    (snd r = 0 ->
+       evidence_valid e = true /\ ~ In id store /\ fst r = id :: store /\ registered = true /\
+       slashes = true /\ rs_suspended st = false) /\
+    (snd r <> 0 -> fst r = store).
+Proof. exact submit_evidence_spec. Qed.
+Print Assumptions submit_evidence_spec.
